@@ -11,6 +11,9 @@ Decided clauses (marshalling tables and wrapper forwarding):
   W3  core exports: each name in magpylib.core.__all__ is the function the BHJM_* wrapper of that class calls
   W4  sibling tiling in get_src_dict: position and orientation are tiled by the same pipeline (row alignment of the two paths)
   W5  (E3-ORIGIN) the exported core functions modify none of their array arguments in place
+  W6  (MEMO) every interface reads the object's *current* state: a property getter that memoises a value derived from other
+      attributes is reset by every writer of those attributes (rules_memo.py); a memo of the state of other objects needs
+      invalidation propagated from them
 Not decided: dataframe ordering, value equality between interfaces.
 """
 from __future__ import annotations
@@ -276,13 +279,16 @@ def w4(repo, res):
 
 
 def run(repo, res, tier):
-    res.rules = ["W1 wrapper family + chain forwarding", "W2 rank table vs signatures and validators", "W3 core exports", "W4 sibling tiling", "W5 core functions leave their arguments unchanged"]
+    res.rules = ["W1 wrapper family + chain forwarding", "W2 rank table vs signatures and validators", "W3 core exports", "W4 sibling tiling", "W5 core functions leave their arguments unchanged",
+                 "W6 memoising getters are invalidated by every writer of their inputs"]
     w1(repo, res)
     w2(repo, res)
     w3(repo, res)
     w4(repo, res)
     import origin_rules
     origin_rules.core_mutations(repo, res, rule="W5")
+    import rules_memo
+    rules_memo.run(repo, res, rule="W6")
     return {}
 
 
